@@ -149,6 +149,9 @@ class CallMixin(ExprMixin):
     def run_hook(self, st, h, node, extra=None):
         for act in h[2]:
             if act[0] == "assert":
+                # reachability of the hook (vacuity guard): some path must arrive here
+                reach = self.__dict__.setdefault("hook_reach", {})
+                reach.setdefault((act[1], node.lineno), []).append(z3.And(st.pc) if st.pc else z3.BoolVal(True))
                 self.oblige(st, "trace", act[1], self.spec_bool(act[2], st, extra=extra, old=self.entry), node.lineno, assume=True)
             elif act[0] == "set":
                 st.ghost[act[1]] = self.spec_eval(act[2], st, extra=extra, old=self.entry)
